@@ -267,6 +267,40 @@ theorem result_lt {r : Finder} (h : OkR r) {k k' : ℤ} (hk : k < k') (ht : |fin
   have h1 : (1 : ℝ) ≤ ((k' - k : ℤ) : ℝ) := by exact_mod_cast (by omega : (1 : ℤ) ≤ k' - k)
   nlinarith [d.1]
 
+/-! ### `Angle(x).to_positive()` on a value that is already in [0, 360) -/
+
+theorem reduce_deg_small {x : ℝ} (h : |x| < 360) : fnd_reduce_deg x = x := by
+  unfold fnd_reduce_deg ple pabs
+  have : ¬ ((360.0 : ℝ) ≤ |x|) := by norm_num; exact h
+  simp [this]
+
+theorem to_positive_nonneg {x : ℝ} (h : 0 ≤ x) : fnd_to_positive x = x := by
+  unfold fnd_to_positive plt
+  have : ¬ x < 0 := not_lt.2 h
+  simp [this]
+
+/-- The reported elongation of an elongation finder, when the series stays inside [0, 360): no reduction happens
+    and the angle is within `elonRad` of `elonMid`. -/
+theorem elon_bound (r : Finder) (e : FExpr) (he : r.elon = some e) (k : ℤ)
+    (ht : |finder_t r (finder_jde0 r k)| ≤ 41)
+    (hlo : (0 : ℝ) ≤ ((r.elonMid : ℚ) : ℝ) - ((r.elonRad : ℚ) : ℝ))
+    (hhi : ((r.elonMid : ℚ) : ℝ) + ((r.elonRad : ℚ) : ℝ) < 360) :
+    ∃ a, finder_elon r k = some a ∧ |a - ((r.elonMid : ℚ) : ℝ)| ≤ ((r.elonRad : ℚ) : ℝ) ∧ 0 ≤ a ∧ a < 360 := by
+  have hm : r.elonMid = e.mid 0 := by unfold Finder.elonMid; rw [he]
+  have hr : r.elonRad = e.rad 0 tMax := by unfold Finder.elonRad; rw [he]
+  have enc := (evalE_encl (finder_t r (finder_jde0 r k)) (finder_m r k)
+    (finder_aux r (finder_t r (finder_jde0 r k))) 0 tMax (by rw [tMax_cast]; simpa using ht) e).1
+  rw [← hm, ← hr] at enc
+  have b := abs_le.1 enc
+  set v := evalE (finder_t r (finder_jde0 r k)) (finder_m r k) (finder_aux r (finder_t r (finder_jde0 r k))) e with hv
+  have v0 : 0 ≤ v := by linarith [b.1]
+  have v1 : v < 360 := by linarith [b.2]
+  have habs : |v| < 360 := by rw [abs_of_nonneg v0]; exact v1
+  refine ⟨v, ?_, enc, v0, v1⟩
+  unfold finder_elon
+  rw [he]
+  simp only [← hv, reduce_deg_small habs, to_positive_nonneg v0]
+
 /-! ### perihelion_aphelion: the first approximation -/
 
 theorem cast_qmax (a b : ℚ) : ((qmax a b : ℚ) : ℝ) = max (a : ℝ) (b : ℝ) := by
@@ -477,6 +511,67 @@ theorem pa_jde_lt {r : PAFinder} (h : OkPA r) (p : Bool) {k k' : ℝ} (hk : |k| 
   have pos : 0 < ofDec r.P + ofDec r.Q * (k + k') - 2 * ((r.corrRad : ℚ) : ℝ) := by nlinarith
   have hcr : (0 : ℝ) ≤ ((r.corrRad : ℚ) : ℝ) := le_trans (abs_nonneg _) hc
   have : (0 : ℝ) < (k' - k) * (ofDec r.P + ofDec r.Q * (k + k')) + (c' - c) := by nlinarith
+  linarith
+
+/-- First approximations of counts at least one apart are at least `P - var` apart. -/
+theorem pa_jde_gap {r : PAFinder} (h : OkPA r) (p : Bool) {k k' : ℝ} (hk : |k| ≤ ((r.kMax : ℚ) : ℝ))
+    (hk' : |k'| ≤ ((r.kMax : ℚ) : ℝ)) (h1 : k + 1 ≤ k') :
+    ofDec r.P - ((r.var : ℚ) : ℝ) ≤ pa_jde r k' p - pa_jde r k p := by
+  obtain ⟨c, hc, e⟩ := pa_jde_form r k p hk
+  obtain ⟨c', hc', e'⟩ := pa_jde_form r k' p hk'
+  rw [e, e']
+  have hg := h.hgap
+  unfold PAFinder.var at hg ⊢
+  push_cast at hg ⊢
+  rw [cast_qabs] at hg ⊢
+  have : ofDec r.Q = ((r.Q.toRat : ℚ) : ℝ) := rfl
+  rw [← this] at hg ⊢
+  have a1 := abs_le.1 hc
+  have a2 := abs_le.1 hc'
+  have b1 := abs_le.1 hk
+  have b2 := abs_le.1 hk'
+  have hq : -(|ofDec r.Q| * (2 * ((r.kMax : ℚ) : ℝ))) ≤ ofDec r.Q * (k + k') := by
+    have := abs_le.1 (show |ofDec r.Q * (k + k')| ≤ |ofDec r.Q| * (2 * ((r.kMax : ℚ) : ℝ)) by
+      rw [abs_mul]; apply mul_le_mul_of_nonneg_left _ (abs_nonneg _)
+      rw [abs_le]; constructor <;> linarith [b1.1, b1.2, b2.1, b2.2])
+    exact this.1
+  have hQ := abs_nonneg (ofDec r.Q)
+  have hcr : (0 : ℝ) ≤ ((r.corrRad : ℚ) : ℝ) := le_trans (abs_nonneg _) hc
+  have pos : 0 < ofDec r.P + ofDec r.Q * (k + k') := by nlinarith
+  have e3 : ofDec r.J0 + k' * (ofDec r.P + k' * ofDec r.Q) + c' - (ofDec r.J0 + k * (ofDec r.P + k * ofDec r.Q) + c)
+      = (k' - k) * (ofDec r.P + ofDec r.Q * (k + k')) + (c' - c) := by ring
+  rw [e3]
+  have : ofDec r.P + ofDec r.Q * (k + k') ≤ (k' - k) * (ofDec r.P + ofDec r.Q * (k + k')) := by nlinarith
+  linarith
+
+/-- First approximations of counts at least half a step apart (a perihelion and the following aphelion, or the
+    reverse; the two variants may differ) are strictly ordered when half the period exceeds the variation. -/
+theorem pa_jde_lt_half {r : PAFinder} (hg : 0 < ofDec r.P / 2 - ((r.var : ℚ) : ℝ)) (p p' : Bool) {k k' : ℝ}
+    (hk : |k| ≤ ((r.kMax : ℚ) : ℝ)) (hk' : |k'| ≤ ((r.kMax : ℚ) : ℝ)) (h1 : k + 1 / 2 ≤ k') :
+    pa_jde r k p < pa_jde r k' p' := by
+  obtain ⟨c, hc, e⟩ := pa_jde_form r k p hk
+  obtain ⟨c', hc', e'⟩ := pa_jde_form r k' p' hk'
+  rw [e, e']
+  unfold PAFinder.var at hg
+  push_cast at hg
+  rw [cast_qabs] at hg
+  have : ofDec r.Q = ((r.Q.toRat : ℚ) : ℝ) := rfl
+  rw [← this] at hg
+  have a1 := abs_le.1 hc
+  have a2 := abs_le.1 hc'
+  have b1 := abs_le.1 hk
+  have b2 := abs_le.1 hk'
+  have hq : -(|ofDec r.Q| * (2 * ((r.kMax : ℚ) : ℝ))) ≤ ofDec r.Q * (k + k') := by
+    have := abs_le.1 (show |ofDec r.Q * (k + k')| ≤ |ofDec r.Q| * (2 * ((r.kMax : ℚ) : ℝ)) by
+      rw [abs_mul]; apply mul_le_mul_of_nonneg_left _ (abs_nonneg _)
+      rw [abs_le]; constructor <;> linarith [b1.1, b1.2, b2.1, b2.2])
+    exact this.1
+  have hQ := abs_nonneg (ofDec r.Q)
+  have hcr : (0 : ℝ) ≤ ((r.corrRad : ℚ) : ℝ) := le_trans (abs_nonneg _) hc
+  have pos : 0 < ofDec r.P + ofDec r.Q * (k + k') := by nlinarith
+  have : (0 : ℝ) < (k' - k) * (ofDec r.P + ofDec r.Q * (k + k')) + (c' - c) := by nlinarith
+  have e3 : ofDec r.J0 + k' * (ofDec r.P + k' * ofDec r.Q) + c' - (ofDec r.J0 + k * (ofDec r.P + k * ofDec r.Q) + c)
+      = (k' - k) * (ofDec r.P + ofDec r.Q * (k + k')) + (c' - c) := by ring
   linarith
 
 end Pymeeus.Refine.Finders
